@@ -3,7 +3,7 @@
 copies /tmp/seedout_<id>_<n>/ into /verif/seeded/<id>[-n]/ and writes meta.json in the documented shape"""
 import sys, os, json, shutil, glob
 pid, n, detected, result, ran = sys.argv[1:6]
-src = '/tmp/seedout_%s_%s' % (pid, n)
+src = "/tmp/seedout_%s_%s" % (pid, n)
 dst = '/verif/seeded/%s' % pid + ('' if n == '1' else '-' + n)
 os.makedirs(dst, exist_ok=True)
 shutil.copy(src + '/patch.diff', dst + '/patch.diff')
